@@ -939,6 +939,10 @@ package larking
 // leads to the final state, every next() stays inside the run (no index out of
 // range) and the three invalid(...) calls are unreachable (no panic).
 //@ spec W(l) = LexInv(l) && TOk(l) && St(l, l.len) == 11
+// The body and response_body selectors are walked with Mutable(fd).Message() on
+// every request / reply: every element, the last one included, must be a
+// singular message field (a registered method's selectors never panic later).
+//@ spec AllSingular(fds) = forall y :: {at(fds, y)} off(fds) <= y && y < off(fds) + len(fds) ==> at(fds, y) != nil && SingularMsg(at(fds, y))
 // (recursion for additional bindings: the frame is assumed at the call site)
 //@ func (*path).addRule serves C16 C11 C04 trusted partial ghost index slice inv.init inv.keep pre[(*path).addRule$
 //@   requires p != nil && rule != nil && desc != nil
@@ -961,6 +965,8 @@ package larking
 //@   assert at "fds := fieldPath(fieldDescs, keys...)" [walk C16] St(l, i + 1) == 3 && i + 1 < l.len
 //@   assert at "switch tok.typ {" [walk C16] St(l, i) == 3 && St(l, i + 1) != 0
 //@   assert at "val := next()" [walk C16] St(l, i + 1) == 9 && i + 1 < l.len
+//@   assert at `if verb == "*" {` [body-walkable C09 C16] AllSingular(m.body)
+//@   assert at `if verb == "*" {` [response-body-walkable C04 C09 C16] AllSingular(m.resp)
 //@   cover at "vars = append(vars, nxt)" [reach-variable-segments] i > 3
 //@   cover at "keys = append(keys, next().val)" [reach-field-path] i > 2
 //@   cover at "val := next()" [reach-verb] i > 1
